@@ -121,7 +121,12 @@ def all_refs_valid(hc, t, obj, cache, fails, ctx, what, seen=None, depth=0):
             if ft[0] in ("ref", "uref"):
                 check_ref_slot(hc, ft, obj, (("f", n),), cache, fails, ctx, what, depth)
             elif ft[0] in ("struct", "array"):
-                all_refs_valid(hc, ft, getattr(obj, n), cache, fails, ctx, what, seen, depth + 1)
+                try:
+                    part = getattr(obj, n)
+                except Exception as ex:
+                    fails.append(common.Failure("oracle", "C06:part-unreadable:" + type(ex).__name__, f"{what}: field {n} cannot be read: {type(ex).__name__}: {str(ex)[:120]}", ctx))
+                    continue
+                all_refs_valid(hc, ft, part, cache, fails, ctx, what, seen, depth + 1)
     elif k == "array":
         shape = [int(x) for x in obj._shape]
         if any(s_ < 0 or s_ > 1 << 32 for s_ in shape):
@@ -131,10 +136,25 @@ def all_refs_valid(hc, t, obj, cache, fails, ctx, what, seen=None, depth=0):
             if t[1][0] in ("ref", "uref"):
                 check_ref_slot(hc, t[1], obj, (("i", idx),), cache, fails, ctx, what, depth)
             elif t[1][0] in ("struct", "array"):
-                all_refs_valid(hc, t[1], obj[idx if len(idx) > 1 else idx[0]], cache, fails, ctx, what, seen, depth + 1)
+                try:
+                    part = obj[idx if len(idx) > 1 else idx[0]]
+                except Exception as ex:
+                    fails.append(common.Failure("oracle", "C06:part-unreadable:" + type(ex).__name__, f"{what}: item {idx} cannot be read: {type(ex).__name__}: {str(ex)[:120]}", ctx))
+                    return
+                all_refs_valid(hc, t[1], part, cache, fails, ctx, what, seen, depth + 1)
 
 
 def check_ref_slot(hc, st, cont, path, cache, fails, ctx, what, depth):
+    try:
+        _check_ref_slot(hc, st, cont, path, cache, fails, ctx, what, depth)
+    except MemoryError:
+        raise
+    except Exception as ex:
+        fails.append(common.Failure("oracle", "C08:reference-unreadable:" + type(ex).__name__,
+                                    f"{what}: slot {L.pstr(path)}: {type(ex).__name__}: {str(ex)[:120]}", ctx))
+
+
+def _check_ref_slot(hc, st, cont, path, cache, fails, ctx, what, depth):
     buf, a = raw_slot(cont, path)
     rel = i64at(buf, a)
     bi = hc.bi(buf)
